@@ -19,8 +19,9 @@ PROPS = {
         "race": True,
         "post": "c16post",
         "design_ref": "DESIGN.md §3.16",
-        "level_text": "TODO",
-        "level_note": "TODO",
+        "struct": True,
+        "level_text": "Theorems C16_lockset_sound and C16_race_free (Coq, no axioms): with the Go memory model's edges for Mutex/RWMutex and atomics, a trace that respects the mutexes and whose accesses are instances of the access table is free of data races; C16_table_ok: the table REGENERATED from /repo's source on every run by the translator harness/cmd/goextract (go/ast + go/types: per function, every access to a field of the package's structs with the mutexes held, read/write, atomic/plain, same-object) satisfies the lockset discipline (vm_compute over the finite table); C16_kl_* : the owner/channel protocol of kl.val / kl.err in the Failover model. Dynamic validation and search: every pair of public operations per component run concurrently under the Go race detector (573 pairs quick); a report is a violation with the pair as replay.",
+        "level_note": "Trusted: the translator (syntax-directed, its completeness is validated by the race detector runs, not verified); the Go memory model as axiomatised in Conc.v; sync.Map and channel operations are taken as synchronized; registration-time API (GobRegister, HTTPTransfer.AddCache) is out of scope (DESIGN O4). Partial: a proof about the extracted table, not about the compiled program.",
     },
     "C15": {
         "tests": ["TestC15"],
